@@ -7,7 +7,8 @@ Open Scope Z_scope.
 
 Inductive verdict := VOk | VErr | VPanic.
 
-Record case := mkCase
+(* one request as observed *)
+Record step := mkCase
   { c_cfg : ucfg;
     c_type : fields;             (* the struct type built with reflect.StructOf *)
     c_doc : option jv;           (* None: a stream the JSON decoder rejects *)
@@ -48,14 +49,18 @@ Fixpoint gval_eqb (a b : gval) {struct a} : bool :=
   end.
 
 (* the generator only emits types of the modelled fragment; anything else is skipped (and counted) *)
-Definition in_scope (c : case) : bool := fields_ok (c_type c).
+Definition in_scope (c : step) : bool := fields_ok (c_type c).
 
-Definition model_obs (c : case) : result gval := unmarshal fixed (c_cfg c) (c_type c) (c_doc c).
+(* a case: the requests served, in order, by one process (usually a single one) *)
+Definition case := list step.
+
+Definition req_of (c : step) : request := mkReq (c_cfg c) (c_type c) (c_doc c).
+Definition model_obs (cs : case) : list (result gval) := run_requests fixed (map req_of cs).
 
 (* the model reproduces the implementation's verdict and decoded value *)
-Definition agrees (c : case) : bool :=
+Definition agrees1 (m : result gval) (c : step) : bool :=
   if in_scope c then
-    match model_obs c, c_verdict c, c_val c with
+    match m, c_verdict c, c_val c with
     | Ok v, VOk, Some w => gval_eqb v w
     | Err _, VErr, _ => true
     | Panic, VPanic, _ => true
@@ -68,7 +73,7 @@ Definition agrees (c : case) : bool :=
                 exactly the typed decoding with defaults (accept_exact);
    rejected  => the document is ill-typed or misses a constraint (accept_complete);
    a panic is always a failure (total). *)
-Definition prop_ok (c : case) : bool :=
+Definition prop_ok1 (c : step) : bool :=
   if in_scope c then
     match c_verdict c with
     | VPanic => false
@@ -84,3 +89,16 @@ Definition prop_ok (c : case) : bool :=
             end)
     end
   else true.
+
+Fixpoint agrees_all (ms : list (result gval)) (cs : list step) : bool :=
+  match ms, cs with
+  | [], [] => true
+  | m :: ms', c :: cs' => agrees1 m c && agrees_all ms' cs'
+  | _, _ => false
+  end.
+
+(* every request of the sequence against the model of the whole sequence *)
+Definition agrees (cs : case) : bool := agrees_all (model_obs cs) cs.
+
+(* every request against ITS OWN document only *)
+Definition prop_ok (cs : case) : bool := forallb prop_ok1 cs.
